@@ -54,6 +54,13 @@ OneDirection == \A i, j \in 1..Len(wire) : wire[i].to = wire[j].to
 AgencyExclusive == ~(HasAgency(Pr, "client", cst) /\ HasAgency(Pr, "server", sst))
 InFlightExpected == wire # <<>> => MayRecv(Pr, Head(wire).to, View(Head(wire).to), Head(wire).msg)
 ViewsAgree == wire = <<>> => cst = sst
+\* Done paths: once a side is in a terminal state it neither sends nor accepts anything,
+\* and as soon as the bearer is drained the other side is terminal too
+Terminal(s) == Pr.agency[s] = "nobody"
+DoneIsFinal ==
+    /\ Terminal(cst) => \A m \in Msgs(Pr) : ~MaySend(Pr, "client", cst, m) /\ ~MayRecv(Pr, "client", cst, m)
+    /\ Terminal(sst) => \A m \in Msgs(Pr) : ~MaySend(Pr, "server", sst, m) /\ ~MayRecv(Pr, "server", sst, m)
+    /\ (wire = <<>> /\ (Terminal(cst) \/ Terminal(sst))) => (Terminal(cst) /\ Terminal(sst) /\ ~ENABLED SNext)
 \* the only deadlocks are completed sessions
 QuietOnlyWhenDone == (~ENABLED SNext) => (cst = sst /\ Pr.agency[cst] = "nobody")
 =============================================================================
